@@ -171,6 +171,10 @@ func AddCase(cf *lib.CaseFile, c *Case) int {
 		// the second one loses its name (finding class; see findings/C01.txt)
 		class = c.G.P.TripleClass
 		cf.SetClass(idx, class)
+	} else if c.G.KeyNameClash && c.G.P.KeyClass != "" {
+		// a tree without the fix gives the GroupBy node two fields of one name (see findings)
+		class = c.G.P.KeyClass
+		cf.SetClass(idx, class)
 	}
 	for k, n := range c.G.Shapes {
 		for j := 0; j < n; j++ {
